@@ -9,6 +9,7 @@ package kcp
 import (
 	"encoding/binary"
 	"hash/fnv"
+	"io"
 	"net"
 	"sort"
 	"time"
@@ -456,3 +457,30 @@ func (s *UDPSession) VerifWritable() bool {
 	defer s.mu.Unlock()
 	return s.kcp.WaitSnd() < int(s.kcp.snd_wnd)
 }
+
+// ---------------------------------------------------------------- entropy
+
+// VerifEntropy returns the process-wide entropy source nonces are drawn from.
+func VerifEntropy() io.Reader { return entropy }
+
+// VerifEntropySetCount positions the draw counter of an entropy source created
+// by NewEntropyAES / NewEntropyChacha8 (the source re-seeds itself from the
+// system every VerifReseedInterval draws) and reports whether r is one of them.
+func VerifEntropySetCount(r io.Reader, count uint64) bool {
+	switch e := r.(type) {
+	case *rngAES:
+		e.mutex.Lock()
+		e.count = count
+		e.mutex.Unlock()
+		return true
+	case *rngChacha8:
+		e.mutex.Lock()
+		e.count = count
+		e.mutex.Unlock()
+		return true
+	}
+	return false
+}
+
+// VerifReseedInterval is the number of draws between two re-seedings.
+const VerifReseedInterval = reseedInterval
